@@ -305,7 +305,35 @@ func ruleC02Dropped(p *Prog, r *Res) {
 	}
 
 	// (1) evictions
+	// a function of the package that nil-stores into resultData.streams[…] evicts on behalf of its caller
+	nilStoreIn := func(g *Fn) bool {
+		if g == nil || g.Body() == nil {
+			return false
+		}
+		ginfo := g.Pkg.TypesInfo
+		hit := false
+		inspectShallow(g.Body(), func(x ast.Node) bool {
+			if as, ok := x.(*ast.AssignStmt); ok && len(as.Lhs) == 1 && len(as.Rhs) == 1 {
+				if id, ok := ast.Unparen(as.Rhs[0]).(*ast.Ident); ok && id.Name == "nil" {
+					if ix, ok := ast.Unparen(as.Lhs[0]).(*ast.IndexExpr); ok && isFieldSel(ginfo, ix.X, "resultData", "streams") {
+						hit = true
+					}
+				}
+			}
+			return true
+		})
+		return hit
+	}
 	evictions := fl.Find(func(n ast.Node) bool {
+		if es, ok := n.(*ast.ExprStmt); ok {
+			if c, ok := es.X.(*ast.CallExpr); ok {
+				if fn := p.Callee(f.Pkg, c); fn != nil {
+					if g := p.FnOfObj(fn); g != nil && g.Pkg == f.Pkg && nilStoreIn(g) {
+						return true
+					}
+				}
+			}
+		}
 		as, ok := n.(*ast.AssignStmt)
 		if !ok || len(as.Lhs) != 1 || len(as.Rhs) != 1 {
 			return false
